@@ -523,6 +523,10 @@ def r18_9(ctx):
     class Cv(StandIn):
         npts, degree = 3, 2
 
+        @property
+        def ctrlpoints(self):
+            return tuple(_MP(*p) for p in P)
+
         def eval(self, nodes):
             try:
                 return tuple(_MP(*bez(n)) for n in nodes)
@@ -542,7 +546,9 @@ def r18_9(ctx):
     ext = {"np.arctan2": math.atan2, "math.atan2": math.atan2, "np.float64": float}
     # the last two centres lie between the sampled polyline and the chord joining the ends of the segment: there the
     # sum of the folded chord angles and the fold of the end-to-end angle differ by a full turn
-    for centre, nn in (((3.0, -2.0), None), ((0.25, 0.5), 5), ((-1.0, 4.0), 4), ((0.58, 0.42), None), ((0.7, 0.45), 5)):
+    for centre, nn in (((3.0, -2.0), None), ((0.25, 0.5), 5), ((-1.0, 4.0), 4), ((0.58, 0.42), None), ((0.7, 0.45), 5),
+                       # between the curve and its interior control point: the control polygon passes on the other side
+                       ((0.9, 0.1), None), ((0.95, 0.2), 4)):
         n = nn or 3
         pts = [bez(k / (n - 1)) for k in range(n)]
         want = 0.0
